@@ -43,6 +43,11 @@ pub trait Controller: Send + Sync + 'static {
     /// Sync point for a cooperative polling loop: released only after something else in the
     /// system has made progress since the caller last parked here.
     fn poll_point(&self, site: &'static str);
+    /// The calling actor thread is about to enter an operation that really blocks until
+    /// another actor acts (a send into a full channel); until `block_exit` it counts as
+    /// neither running nor parked.
+    fn block_enter(&self, _site: &'static str, _detail: u128) {}
+    fn block_exit(&self) {}
 }
 
 static CONTROLLER: RwLock<Option<Arc<dyn Controller>>> = RwLock::new(None);
@@ -160,5 +165,27 @@ pub fn active() -> bool {
 pub fn poll_point(site: &'static str) {
     if let Some(c) = controller() {
         c.poll_point(site);
+    }
+}
+
+pub struct BlockScope(Option<Arc<dyn Controller>>);
+
+/// Brackets an operation that blocks for real when `will_block` holds.
+pub fn blocking(site: &'static str, detail: u128, will_block: bool) -> BlockScope {
+    if !will_block {
+        return BlockScope(None);
+    }
+    let c = controller();
+    if let Some(c) = &c {
+        c.block_enter(site, detail);
+    }
+    BlockScope(c)
+}
+
+impl Drop for BlockScope {
+    fn drop(&mut self) {
+        if let Some(c) = &self.0 {
+            c.block_exit();
+        }
     }
 }
